@@ -214,6 +214,8 @@ func alphaOf(typ string) []uint64 {
 // ---------------------------------------------------------------------------------------------------------
 // Component codecs: adapters around the real encoders/decoders. raw items <-> typed values.
 
+func clone(v []uint64) []uint64 { return append(make([]uint64, 0, len(v)), v...) }
+
 func cp(b []byte) []byte { return append([]byte(nil), b...) }
 
 func scalarEncode(typ string, raw []uint64) ([]byte, error) {
@@ -1387,8 +1389,8 @@ func (e *enumerator) visit(mk func() Case) {
 func allSeqs(alpha []uint64, minLen, maxLen int, f func(lit []uint64)) {
 	for n := minLen; n <= maxLen; n++ {
 		ix := make([]int, n)
+		lit := make([]uint64, n) // reused: callers copy what they keep
 		for {
-			lit := make([]uint64, n)
 			for i, k := range ix {
 				lit[i] = alpha[k]
 			}
@@ -1482,6 +1484,9 @@ func explore(c *vlib.Ctx) {
 	for _, typ := range []string{"time", "int", "uint", "float", "string"} {
 		typ := typ
 		max := shortMax
+		if thorough && typ != "string" {
+			max = 6
+		}
 		if typ == "string" && !thorough {
 			max = 3
 		}
@@ -1489,7 +1494,7 @@ func explore(c *vlib.Ctx) {
 			max = 4
 		}
 		allSeqs(alphaOf(typ), 0, max, func(lit []uint64) {
-			e.visit(func() Case { return Case{Level: "codec", Type: typ, V: Spec{Kind: "lit", Lit: lit}} })
+			e.visit(func() Case { return Case{Level: "codec", Type: typ, V: Spec{Kind: "lit", Lit: clone(lit)}} })
 		})
 	}
 	mark("F1-codec-short")
@@ -1498,11 +1503,11 @@ func explore(c *vlib.Ctx) {
 		boolMax = 18
 	}
 	allSeqs(boolAlpha, 0, boolMax, func(lit []uint64) {
-		e.visit(func() Case { return Case{Level: "codec", Type: "bool", V: Spec{Kind: "lit", Lit: lit}} })
+		e.visit(func() Case { return Case{Level: "codec", Type: "bool", V: Spec{Kind: "lit", Lit: clone(lit)}} })
 	})
 	mark("F1-bool-short")
 	allSeqs(s8Alpha, 0, shortMax, func(lit []uint64) {
-		e.visit(func() Case { return Case{Level: "s8b", Type: "uint64", V: Spec{Kind: "lit", Lit: lit}} })
+		e.visit(func() Case { return Case{Level: "s8b", Type: "uint64", V: Spec{Kind: "lit", Lit: clone(lit)}} })
 	})
 
 	mark("F1-s8b-short")
@@ -1644,7 +1649,7 @@ func explore(c *vlib.Ctx) {
 		allSeqs(al, 1, blockMax, func(lit []uint64) {
 			for _, tp := range tsPatterns(len(lit)) {
 				tp := tp
-				e.visit(func() Case { return Case{Level: "block", Type: typ, V: Spec{Kind: "lit", Lit: lit}, T: &tp} })
+				e.visit(func() Case { return Case{Level: "block", Type: typ, V: Spec{Kind: "lit", Lit: clone(lit)}, T: &tp} })
 			}
 		})
 		// every short timestamp sequence x one value pattern
@@ -1654,7 +1659,7 @@ func explore(c *vlib.Ctx) {
 		}
 		allSeqs(timeAlpha, 1, blockMax, func(lit []uint64) {
 			e.visit(func() Case {
-				return Case{Level: "block", Type: typ, V: Spec{Kind: "cycle", N: len(lit), Lit: cyc}, T: &Spec{Kind: "lit", Lit: lit}}
+				return Case{Level: "block", Type: typ, V: Spec{Kind: "cycle", N: len(lit), Lit: cyc}, T: &Spec{Kind: "lit", Lit: clone(lit)}}
 			})
 		})
 		// long blocks
@@ -1682,7 +1687,7 @@ func explore(c *vlib.Ctx) {
 func TestCheck(t *testing.T) {
 	vlib.Main(t, &vlib.Check{
 		ID: "C07", Level: "exploration",
-		Rule: "F1: ALL sequences of length 0..4 (thorough 0..5; strings 0..3 / 0..4; booleans 0..12 / 0..18) over a 12-value boundary alphabet per type " +
+		Rule: "F1: ALL sequences of length 0..4 (thorough: 0..6 for time/int/uint/float, 0..5 for simple8b; strings 0..3 / 0..4; booleans 0..12 / 0..18) over a 12-value boundary alphabet per type " +
 			"(time: MinInt64,-1,0,1,10,1000,1e9,1e12,2e12,2^60-1,2^60,MaxInt64 incl. unsorted and equal neighbours; int: 0,±1,7,±2^59 and neighbours,2^60,-2^62,Min/MaxInt64; " +
 			"uint: …2^60-1,2^60,2^63,MaxUint64; float bits: ±0,1,-1.5,pi,±min-subnormal,MaxFloat64,±Inf,2 NaN payloads; string: \"\",a,NUL,multi-byte,invalid UTF-8,127/128/16384/65536/65537 bytes; " +
 			"simple8b: 0,1,2,3,7,8,255,2^20,2^30-1,2^60-1,2^60,MaxUint64). " +
